@@ -11,7 +11,8 @@ from fractions import Fraction
 from typing import Dict, List, Union
 
 import pycardano as pc
-from pycardano import (Address, Asset, AssetName, ExecutionUnits, MultiAsset, Network, PaymentExtendedSigningKey,
+from pycardano import (
+    PointerAddress, Address, Asset, AssetName, ExecutionUnits, MultiAsset, Network, PaymentExtendedSigningKey,
                        PaymentSigningKey, PlutusV1Script, PlutusV2Script, PlutusV3Script, RawPlutusData, Redeemer,
                        ScriptAll, ScriptAny, ScriptHash, ScriptNofK, ScriptPubkey, StakeSigningKey,
                        TransactionBuilder, TransactionInput, TransactionOutput, UTxO, Value, Withdrawals, script_hash)
@@ -76,7 +77,9 @@ def vkh(label: str) -> VerificationKeyHash:
 def plutus_script(name: str):
     """'p1:foo' / 'p2:foo' / 'p3:foo' -> PlutusVnScript with deterministic bytes"""
     ver, tag = name.split(":", 1)
-    body = H("script/" + name, 40) + bytes([len(tag) % 7])
+    # a tag containing '=' gives the SAME bytes under every language and role ('p1:m=x', 'p2:=x': equal bytes, different hashes)
+    key = tag[tag.index("="):] if "=" in tag else None
+    body = H("script/" + (key or name), 40) + bytes([len(key or tag) % 7])
     return {"p1": PlutusV1Script, "p2": PlutusV2Script, "p3": PlutusV3Script}[ver](body)
 
 
@@ -103,14 +106,23 @@ def any_script(spec):
 def address(spec) -> Address:
     """'k0' enterprise key address; 'k0+s1' base address; ['script', scriptspec] script enterprise address;
     ['script', scriptspec, 's1'] script base address"""
+    def stake(x):
+        # 's1' key stake credential | 'ptr' stake pointer | ['script', scriptspec] script stake credential
+        if x == "ptr":
+            return PointerAddress(2498243, 27, 3)
+        if isinstance(x, list) and x[0] == "script":
+            return script_hash(any_script(x[1]))
+        return vkh(x)
     if isinstance(spec, str):
         if "+" in spec:
             p, s = spec.split("+")
-            return Address(vkh(p), vkh(s), NET)
+            return Address(vkh(p), stake(s), NET)
         return Address(vkh(spec), network=NET)
     if spec[0] == "script":
         sh = script_hash(any_script(spec[1]))
-        return Address(sh, vkh(spec[2]) if len(spec) > 2 else None, NET)
+        return Address(sh, stake(spec[2]) if len(spec) > 2 else None, NET)
+    if spec[0] == "key":           # ['key', 'k0', ['script', scriptspec]]: key payment credential, script stake credential
+        return Address(vkh(spec[1]), stake(spec[2]) if len(spec) > 2 else None, NET)
     raise ValueError(spec)
 
 
